@@ -101,14 +101,20 @@ def op_instances(rng, h):
         # renaming / moving a crate that has sub-crates rewrites the paths of the whole subtree (1.x update_path)
         out.append(("crate.set_name(with sub-crates)", "rename %s %s" % (sub, G.hx(h.fresh_name(h.crates[sub])))))
         out.append(("remove_crate(subtree with tracks)", "rmcrate %s" % sub))
-        kids = sorted(h.siblings(sub))
-        leaf = [k for k in kids if not h.descendants(k) and h.members_of(k)]
-        if leaf:
-            out.append(("remove_crate(leaf with tracks)", "rmcrate %s" % leaf[0]))
-        if len(kids) >= 2:
+    # a leaf crate that holds tracks, and a crate that is not the last among its siblings: looked for in the whole
+    # state (the enriched prior states contain both; which crate it is does not matter)
+    leaves = sorted(c for c in h.crates if not h.descendants(c) and h.members_of(c))
+    if leaves:
+        out.append(("remove_crate(leaf with tracks)", "rmcrate %s" % leaves[0]))
+    done = False
+    for par in [sub] + sorted(c for c in h.crates if c != sub) + [None]:
+        kids = sorted(h.siblings(par)) if (par is None or par in h.crates) else []
+        if len(kids) >= 2 and not done:
+            n0 = len(out)
             inst("setparent", tries=12, want="crate.set_parent", c=kids[len(kids) // 2 - (len(kids) % 2 == 0)])
-            if out[-1][0] == "crate.set_parent":
+            if len(out) > n0 and out[-1][0] == "crate.set_parent":
                 out[-1] = ("crate.set_parent(non-last sibling)", out[-1][1])
+                done = True
     inst("mktrack", rich=True); out[-1] = ("create_track(rich)", out[-1][1])
     inst("mktrack", rich=False); out[-1] = ("create_track(minimal)", out[-1][1])
     inst("update"); inst("rmtrack")
